@@ -441,7 +441,7 @@ def dist(xs):
 
 # ---------------------------------------------------------------------------------------------------------------- stage
 
-def t4_stage(ctx, only=None, repeat=1, verbose=False):
+def t4_stage(ctx, only=None, repeat=1, verbose=False, situations=None, clauses=None):
     """Builds the binaries and the driver, runs corpus + matrix (or `only`), judges, records violations and coverage."""
     cov = ctx.coverage
     tie = cov["ties"].setdefault("T4-binary", {})
@@ -474,6 +474,10 @@ def t4_stage(ctx, only=None, repeat=1, verbose=False):
         corpus = corpus_scenarios()
         corpus_n = len(corpus)
         scs = corpus + matrix(ctx.seed, ctx.tier)
+        if situations is not None:
+            # another property's check (C03: blocked calls at shutdown) runs the part of the matrix that concerns it
+            scs = [sc for sc in scs if sc.get("client") in situations]
+            corpus_n = sum(1 for sc in scs if str(sc.get("id", "")).startswith("c-"))
     t1 = time.time()
     results, dlog, work = run_driver(ctx, exe, srv, lockbin, scs, "run")
     by_id = {o["scenario"]["id"]: o for o in results}
@@ -507,7 +511,7 @@ def t4_stage(ctx, only=None, repeat=1, verbose=False):
         judged.append((o, v))
         for k in CLAUSES:
             counts[k]["fail" if v[k].startswith("fail") else v[k]] += 1
-        fails = [k for k in CLAUSES if v[k].startswith("fail")]
+        fails = [k for k in CLAUSES if v[k].startswith("fail") and (clauses is None or k in clauses)]
         if fails and handshake_signature(o, fails) and ctx.finding_by_id(F_HANDSHAKE):
             known.append((o, v, fails))
             fails = []
